@@ -129,6 +129,8 @@ def _work(payload):
         if kind == "c07":
             return oracles.c07_check(payload), None
         if kind == "c17":
+            if payload.get("xproc"):
+                return oracles.c17_xproc_check(payload), None
             return oracles.c17_check(payload), None
         if kind == "c20":
             return oracles.c20_check(payload), None
